@@ -2,19 +2,33 @@
 """Write seeded/MATRIX.md and refresh seeded/*/meta.json from a matrix run (tools/seed_matrix.sh output)."""
 import json, os, re, sys
 ROOT = os.path.dirname(os.path.dirname(os.path.abspath(__file__)))
-lines = [l for l in open(sys.argv[1]) if re.match(r"C\d\d[a-d] C\d\d rc=", l)]
+lines = [l for l in open(sys.argv[1]) if re.match(r"C\d\d[a-f] C\d\d rc=", l)]
 rows = []
 for l in lines:
-    m = re.match(r"(C\d\d[a-d]) (C\d\d) rc=(\d+)(.*)", l)
+    m = re.match(r"(C\d\d[a-f]) (C\d\d) rc=(\d+)(.*)", l)
     seed, prop, rc, rest = m.group(1), m.group(2), int(m.group(3)), m.group(4)
     sigs = sorted(set(re.findall(r"signature=(C\d\d/\S+)", rest)))
     rows.append((seed, prop, rc, sigs))
+# second argument: output of tools/seed_confirm.sh for every seed; what meta.json says about confirmation is what that run printed
+CONF = {}
+if len(sys.argv) > 2:
+    for l in open(sys.argv[2]):
+        m = re.match(r"seeded/(C\d\d[a-f])/? apply=(\S+) tests=\[(.*?)\] demo_patched=(\d+) demo_clean=(\d+)", l)
+        if m:
+            CONF[m.group(1)] = {"apply": m.group(2), "tests": m.group(3), "demo_patched": int(m.group(4)), "demo_clean": int(m.group(5))}
+
+
+def confirmed(c):
+    return bool(c) and c["apply"] != "FAIL" and c["tests"].startswith("388 passed") and c["demo_patched"] != 0 and c["demo_clean"] == 0
+
+
 extra = {"C01b": ("C01", 0, [])}
 OBSOLETE = {"C18b": "made harmless by fix 4e889ba (chain now closes its owned iterators itself): the demo passes with the patch, so it is no longer a property-breaking change"}
 out = ["# Seeded changes x checks", "",
        "Each change was written by an independent sub-agent from the text of one property only, confirmed here",
        "(`tools/seed_confirm.sh`: applies to /repo HEAD, 388 tests pass, demo fails with / passes without the patch) and run",
-       "(variants a, b: first round; c, d: second round, written knowing only the summaries of the first)",
+       "(variants a, b: first round; c, d: second round, written knowing only the summaries of the first; e, f: third round,",
+       "written knowing only the summaries of the first two)",
        "against the quick check of its property with `tools/seed_run.sh` (scratch worktree of /repo HEAD + patch).", "",
        "| seed | property | summary | needs | caught (exit 1) | signatures (first 3) |", "|---|---|---|---|---|---|"]
 for seed, prop, rc, sigs in rows:
@@ -22,8 +36,9 @@ for seed, prop, rc, sigs in rows:
         prop, rc, sigs = extra[seed]
     mp = os.path.join(ROOT, "seeded", seed, "meta.json")
     meta = json.load(open(mp))
-    meta["confirmed"] = {"on": "/repo HEAD at the time of the matrix run (scratch worktree)", "tests": "388 passed with the patch",
-                         "demo": "exit 1 with the patch, exit 0 without", "how": "tools/seed_confirm.sh seeded/" + seed}
+    c = CONF.get(seed)
+    meta["confirmed"] = {"on": "/repo HEAD at the time of the matrix run (scratch worktree)", "how": "tools/seed_confirm.sh seeded/" + seed,
+                         "observed": c if c else "not re-run for this matrix", "still_a_breaking_change": confirmed(c) if c else None}
     meta["checked_with"] = f"tools/seed_run.sh seeded/{seed} {prop}  (VERIF_REPO=<worktree with patch> ./check {prop} --tier quick)"
     meta["caught"] = bool(rc == 1)
     if seed in OBSOLETE:
@@ -33,6 +48,8 @@ for seed, prop, rc, sigs in rows:
     summ = str(meta.get("summary", "")).replace("|", "/")[:160]
     need = str(meta.get("needs_to_manifest", "")).replace("|", "/")[:140]
     verdict = 'yes' if rc == 1 else 'NO' if rc == 0 else 'machinery error'
+    if c and not confirmed(c) and seed not in OBSOLETE:
+        verdict = f"stale on HEAD (apply={c['apply']}, demo with patch exits {c['demo_patched']}, without {c['demo_clean']}); check said: " + verdict
     if seed in OBSOLETE:
         verdict = 'obsolete (was caught: C18/chain/unreleased-unstarted-source-after-cancel)'
     out.append(f"| {seed} | {prop} | {summ} | {need} | {verdict} | {'<br>'.join(sigs[:3])} |")
